@@ -485,7 +485,7 @@ class StmtMixin:
         if y.items is not None:
             fr.yielded = VList(items=y.items + [v])
         else:
-            fr.yielded = VList(y.n + 1, vals.sto(y.elem, y.n, v))
+            fr.yielded = VList(y.n + 1, vals.sto(y.elem, y.n, self.dataify(v)))
 
     def do_yield_from(self, node, env):
         v = self.ev(node.value, env)
@@ -641,7 +641,7 @@ class StmtMixin:
                 if kind is None:
                     raise Unsupported(f"{fr.qualname}: generator loop needs a declared `yields` kind")
                 tmpl = vals.fresh("list[" + kind + "]", "tmpl")
-                y = vals.coerce(y, tmpl) if y.items else VList(z3.IntVal(0), vals.lift_const(vals.dummy_like(vals.sel(tmpl.elem, z3.IntVal(0))), INT))
+                y = vals.coerce(VList(items=[self.dataify(x) for x in y.items]), tmpl) if y.items else VList(z3.IntVal(0), vals.lift_const(vals.dummy_like(vals.sel(tmpl.elem, z3.IntVal(0))), INT))
             hv = self.path.fresh_like(y, "yielded")
             self.path.assume(hv.n >= 0)
             fr.yielded = hv
